@@ -30,7 +30,7 @@ func reachesFibUpdate(in ssa.Instruction) bool {
 	if fn == nil || fn.Blocks == nil || fn.Parent() == nil {
 		return false
 	}
-	return core.MustFollow(fn, core.Point{Block: fn.Blocks[0], Idx: 0}, func(x ssa.Instruction) bool {
+	return core.MustFollowDeep(fn, core.Point{Block: fn.Blocks[0], Idx: 0}, func(x ssa.Instruction) bool {
 		_, ok := core.IsCall(x, core.CalleeID{Pkg: "dv/dv", Recv: "Router", Name: "fibUpdate"})
 		return ok
 	}, nil).OK
@@ -76,8 +76,14 @@ func C19(c *core.Ctx) {
 					}
 				}
 			case *ssa.Call:
-				_, ok := core.IsCall(x, ids...)
-				return ok
+				if _, ok := core.IsCall(x, ids...); ok {
+					return true
+				}
+				// the flag is the result of a private helper (wrapper/worker split)
+				if r := core.Resolve(x); r != ssa.Value(x) {
+					return has(r, seen)
+				}
+				return false
 			case *ssa.Extract:
 				if cl, ok := x.Tuple.(*ssa.Call); ok {
 					_, ok := core.IsCall(cl, ids...)
@@ -120,7 +126,10 @@ func C19(c *core.Ctx) {
 		}
 		return &core.Atom{Name: name, Match: func(cond ssa.Value) (int, int) {
 			switch core.Strip(cond).(type) {
-			case *ssa.Phi, *ssa.UnOp, *ssa.BinOp:
+			case *ssa.Phi, *ssa.UnOp, *ssa.BinOp, *ssa.Call:
+				if cl, isCall := core.Strip(cond).(*ssa.Call); isCall && core.Resolve(cl) == ssa.Value(cl) {
+					return 0, 0 // a direct call is matched by the call atoms, not as an accumulator
+				}
 				if has(cond, map[ssa.Value]bool{}) {
 					return 1, -1
 				}
@@ -146,7 +155,7 @@ func C19(c *core.Ctx) {
 				continue
 			}
 			n++
-			if !core.MustFollow(fn, core.Point{Block: f.E.To, Idx: 0}, reachesFibUpdate, nil).OK {
+			if !core.MustFollowDeep(fn, core.Point{Block: f.E.To, Idx: 0}, reachesFibUpdate, nil).OK {
 				ok = false
 			}
 		}
@@ -159,7 +168,7 @@ func C19(c *core.Ctx) {
 			continue
 		}
 		okAcc := true
-		for _, ci := range core.FindCalls(fn, core.CalleeID{Pkg: "dv/table", Recv: "Rib", Name: "Set"}, core.CalleeID{Pkg: "dv/table", Recv: "Rib", Name: "Prune"}, core.CalleeID{Pkg: "dv/table", Recv: "Rib", Name: "RemoveNextHop"}) {
+		for _, ci := range core.FindCallsDeep(fn, core.CalleeID{Pkg: "dv/table", Recv: "Rib", Name: "Set"}, core.CalleeID{Pkg: "dv/table", Recv: "Rib", Name: "Prune"}, core.CalleeID{Pkg: "dv/table", Recv: "Rib", Name: "RemoveNextHop"}) {
 			if v := ci.Value(); v == nil || len(core.Refs(v)) == 0 {
 				okAcc = false
 			}
@@ -170,7 +179,7 @@ func C19(c *core.Ctx) {
 	// ---- R19.2 fibUpdate bracket
 	if fu := c.Fn("R19.2", "dv/dv", "Router", "fibUpdate"); fu != nil {
 		call := func(name string) []ssa.CallInstruction {
-			return core.FindCalls(fu, core.CalleeID{Pkg: "dv/table", Recv: "Fib", Name: name})
+			return core.FindCallsDeep(fu, core.CalleeID{Pkg: "dv/table", Recv: "Fib", Name: name})
 		}
 		unmark, upd, mark, sweep := call("UnmarkAll"), call("UpdateH"), call("MarkH"), call("RemoveUnmarked")
 		ok := len(unmark) == 1 && len(upd) >= 1 && len(mark) >= 1 && len(sweep) == 1
@@ -178,7 +187,7 @@ func C19(c *core.Ctx) {
 			isUnmark := func(in ssa.Instruction) bool { return in == ssa.Instruction(unmark[0]) }
 			isSweep := func(in ssa.Instruction) bool { return in == ssa.Instruction(sweep[0]) }
 			for _, u := range append(append([]ssa.CallInstruction{}, upd...), mark...) {
-				if !core.Precedes(fu, u, isUnmark) || !core.MustFollow(fu, core.After(u), isSweep, nil).OK {
+				if !core.PrecedesDeep(fu, u, isUnmark) || !core.MustFollowDeep(fu, core.After(u), isSweep, nil).OK {
 					ok = false
 				}
 			}
@@ -186,12 +195,12 @@ func C19(c *core.Ctx) {
 				ok = false
 			}
 			// the sweep runs on every path of the function (also when nothing is desired)
-			if !core.MustFollow(fu, core.After(unmark[0]), isSweep, nil).OK {
+			if !core.MustFollowDeep(fu, core.After(unmark[0]), isSweep, nil).OK {
 				ok = false
 			}
 			// ... and on every path from the function entry: an early return before the
 			// bracket ("nothing to install") would leave the previous routes registered
-			if !core.MustFollow(fu, core.Point{Block: fu.Blocks[0], Idx: 0}, isSweep, nil).OK {
+			if !core.MustFollowDeep(fu, core.Point{Block: fu.Blocks[0], Idx: 0}, isSweep, nil).OK {
 				ok = false
 			}
 		}
@@ -204,7 +213,7 @@ func C19(c *core.Ctx) {
 				}
 				return 0, 0
 			}}
-			g := core.Gate(fu, []ssa.Instruction{m}, pos(keep))
+			g := core.GateDeep(fu, []ssa.Instruction{m}, pos(keep))
 			c.Decide(g.OK && g.PassEdges > 0, "R19.2", "mark-only-kept-entries", c.Pos(m), "MarkH only on the UpdateH()==true edge", "fibUpdate marks a prefix although UpdateH reported that nothing is installed for it")
 		}
 		// own entry skipped
@@ -217,19 +226,19 @@ func C19(c *core.Ctx) {
 			return isCallTo(a[0], core.CalleeID{Pkg: "dv/config", Recv: "Config", Name: "RouterName"})
 		})
 		var gets []ssa.Instruction
-		for _, ci := range core.FindCalls(fu, core.CalleeID{Pkg: "dv/table", Recv: "Rib", Name: "GetFibEntries"}) {
+		for _, ci := range core.FindCallsDeep(fu, core.CalleeID{Pkg: "dv/table", Recv: "Rib", Name: "GetFibEntries"}) {
 			gets = append(gets, ci)
 		}
-		g := core.Gate(fu, gets, neg(self))
+		g := core.GateDeep(fu, gets, neg(self))
 		c.Decide(len(gets) > 0 && g.OK && g.PassEdges > 0, "R19.2", "own-router-skipped", p.Pos(fu.Pos()), "no routes are computed for this router's own entry", "fibUpdate installs routes towards this router itself")
 		// prefixes of each router are registered with that router's next hops
-		okPfx := len(core.FindCalls(fu, core.CalleeID{Pkg: "dv/table", Recv: "PrefixTable", Name: "GetRouter"})) > 0
+		okPfx := len(core.FindCallsDeep(fu, core.CalleeID{Pkg: "dv/table", Recv: "PrefixTable", Name: "GetRouter"})) > 0
 		c.Decide(okPfx, "R19.2", "prefixes-from-prefix-table", p.Pos(fu.Pos()), "the prefixes announced by each reachable router are taken from the prefix table", "fibUpdate no longer installs the prefixes announced by remote routers")
 	}
 	if uh := c.Fn("R19.2", "dv/table", "Fib", "UpdateH"); uh != nil {
 		inf, _ := lookupConst(p, "dv/config", "CostInfinity")
 		var unreg, reg []ssa.Instruction
-		core.Instrs(uh, func(in ssa.Instruction) {
+		core.InstrsDeep(uh, func(in ssa.Instruction) {
 			if _, ok := core.IsCall(in, core.CalleeID{Pkg: "dv/nfdc", Recv: "NfdMgmtThread", Name: "Exec"}); !ok {
 				return
 			}
@@ -299,14 +308,14 @@ func C19(c *core.Ctx) {
 			}
 			return 0, 0
 		}}
-		g1 := core.Gate(uh, unreg, pos(gone))
-		g2 := core.Gate(uh, reg, neg(same))
+		g1 := core.GateDeep(uh, unreg, pos(gone))
+		g2 := core.GateDeep(uh, reg, neg(same))
 		c.Decide(len(unreg) == 1 && g1.OK && g1.PassEdges > 0, "R19.2", "unregister-only-unreachable", p.Pos(uh.Pos()), "'unregister' is issued only on the edge asserting cost ≥ infinity", "UpdateH can unregister a face that is still a finite-cost next hop (or never unregisters)")
 		c.Decide(len(reg) == 1 && g2.OK && g2.PassEdges > 0, "R19.2", "register-only-on-cost-change", p.Pos(uh.Pos()), "'register' is issued only when the cost differs from the installed one", "UpdateH re-registers unchanged routes or skips changed ones (the register command is not gated by Cost != prevCost)")
 		// a face listed more than once for a prefix keeps its lowest cost: the store into
 		// an existing entry's Cost (other than the reset to infinity) is min(new, current)
 		nStore, okMin := 0, true
-		core.Instrs(uh, func(in ssa.Instruction) {
+		core.InstrsDeep(uh, func(in ssa.Instruction) {
 			fa, v, ok := storeToField(in, "FibEntry", "Cost")
 			if !ok {
 				return
@@ -359,7 +368,7 @@ func C19(c *core.Ctx) {
 					}
 					return 0, 0
 				}}
-				g := core.Gate(uh, []ssa.Instruction{in}, pos(lower))
+				g := core.GateDeep(uh, []ssa.Instruction{in}, pos(lower))
 				good = g.OK && g.PassEdges > 0
 			}
 			if !good {
@@ -369,7 +378,7 @@ func C19(c *core.Ctx) {
 		c.Decide(nStore > 0 && okMin, "R19.2", "duplicate-face-keeps-lowest-cost", p.Pos(uh.Pos()), "an existing entry's cost is only lowered (min of the desired costs for that face)", "UpdateH overwrites the cost of a face that is listed more than once for a prefix with the last one seen instead of the lowest: multi-homed prefixes and shared faces are installed at a non-minimal cost")
 		// all kept entries are stored back
 		stored := false
-		core.Instrs(uh, func(in ssa.Instruction) {
+		core.InstrsDeep(uh, func(in ssa.Instruction) {
 			if mu, ok := in.(*ssa.MapUpdate); ok {
 				if _, okF := core.FieldOf(mu.Map, "prefixes"); okF {
 					stored = true
@@ -396,7 +405,7 @@ func C19(c *core.Ctx) {
 			return 0, 0
 		}}
 		var eff []ssa.Instruction
-		core.Instrs(ru, func(in ssa.Instruction) {
+		core.InstrsDeep(ru, func(in ssa.Instruction) {
 			if _, ok := core.IsCall(in, core.CalleeID{Pkg: "dv/table", Recv: "Fib", Name: "UpdateH"}, core.CalleeID{Pkg: "dv/table", Recv: "Fib", Name: "Update"}); ok {
 				eff = append(eff, in)
 			}
@@ -404,7 +413,7 @@ func C19(c *core.Ctx) {
 				eff = append(eff, in)
 			}
 		})
-		g := core.Gate(ru, eff, neg(unmarked))
+		g := core.GateDeep(ru, eff, neg(unmarked))
 		c.Decide(len(eff) > 0 && g.OK && g.PassEdges > 0, "R19.2", "sweep-removes-only-unmarked", p.Pos(ru.Pos()), "only unmarked prefixes are withdrawn", "RemoveUnmarked can withdraw a prefix that was marked in this rebuild")
 	}
 
@@ -415,10 +424,10 @@ func C19(c *core.Ctx) {
 		if fn == nil {
 			continue
 		}
-		pubs := core.FindCalls(fn, core.CalleeID{Pkg: "dv/table", Recv: "PrefixTable", Name: "publishOp"})
+		pubs := core.FindCallsDeep(fn, core.CalleeID{Pkg: "dv/table", Recv: "PrefixTable", Name: "publishOp"})
 		okOrder := len(pubs) > 0
 		for _, pc := range pubs {
-			if !core.Precedes(fn, pc, func(x ssa.Instruction) bool {
+			if !core.PrecedesDeep(fn, pc, func(x ssa.Instruction) bool {
 				if mu, ok := x.(*ssa.MapUpdate); ok {
 					_, okF := core.FieldOf(mu.Map, "Prefixes")
 					return okF
@@ -432,7 +441,7 @@ func C19(c *core.Ctx) {
 		// and nothing changes the set after publishing
 		after := false
 		for _, pc := range pubs {
-			core.Instrs(fn, func(x ssa.Instruction) {
+			core.InstrsDeep(fn, func(x ssa.Instruction) {
 				isMut := isMapDelete(x, "Prefixes")
 				if mu, ok := x.(*ssa.MapUpdate); ok {
 					if _, okF := core.FieldOf(mu.Map, "Prefixes"); okF {
@@ -451,7 +460,7 @@ func C19(c *core.Ctx) {
 	if ap := c.Fn("R19.3", "dv/table", "PrefixTable", "Apply"); ap != nil {
 		ops := ssa.Value(ap.Params[1])
 		var reset, adds, removes ssa.Instruction
-		core.Instrs(ap, func(in ssa.Instruction) {
+		core.InstrsDeep(ap, func(in ssa.Instruction) {
 			switch x := in.(type) {
 			case *ssa.Store:
 				if _, _, ok := storeToField(in, "PrefixTableRouter", "Prefixes"); ok {
@@ -470,7 +479,7 @@ func C19(c *core.Ctx) {
 		ok := reset != nil && adds != nil && removes != nil
 		if ok {
 			// order: reset cannot be reached after an add or remove; an add cannot be reached after a remove
-			ok = !core.ReachableFrom(core.After(adds), reset) && !core.ReachableFrom(core.After(removes), reset) && !core.ReachableFrom(core.After(removes), adds)
+			ok = !core.ReachableAfterDeep(ap, adds, reset) && !core.ReachableAfterDeep(ap, removes, reset) && !core.ReachableAfterDeep(ap, removes, adds)
 			// and each reads its own list
 			_ = ops
 		}
@@ -482,13 +491,13 @@ func C19(c *core.Ctx) {
 			return 0, 0
 		}}
 		if reset != nil {
-			g := core.Gate(ap, []ssa.Instruction{reset}, pos(resetFlag))
+			g := core.GateDeep(ap, []ssa.Instruction{reset}, pos(resetFlag))
 			c.Decide(g.OK && g.PassEdges > 0, "R19.3", "reset-only-when-asked", c.Pos(reset), "the table is cleared only when PrefixOpReset is set", "PrefixTable.Apply clears a router's prefixes although the op list carries no reset")
 		}
 	}
 	if po := c.Fn("R19.3", "dv/table", "PrefixTable", "publishOp"); po != nil {
-		incr := core.FindCalls(po, core.CalleeID{Pkg: "*", Recv: "*", Name: "IncrSeqNo"})
-		pub := core.FindCalls(po, core.CalleeID{Pkg: "dv/table", Recv: "PrefixTable", Name: "publish"})
+		incr := core.FindCallsDeep(po, core.CalleeID{Pkg: "*", Recv: "*", Name: "IncrSeqNo"})
+		pub := core.FindCallsDeep(po, core.CalleeID{Pkg: "dv/table", Recv: "PrefixTable", Name: "publish"})
 		ok := len(incr) == 1 && len(pub) == 1
 		if ok {
 			sl := &core.Slicer{P: p}
@@ -501,7 +510,7 @@ func C19(c *core.Ctx) {
 					}
 				}
 			}
-			ok = usesSeq && core.Precedes(po, pub[0], func(in ssa.Instruction) bool { return in == ssa.Instruction(incr[0]) })
+			ok = usesSeq && core.PrecedesDeep(po, pub[0], func(in ssa.Instruction) bool { return in == ssa.Instruction(incr[0]) })
 		}
 		c.Decide(ok, "R19.3", "publish-under-new-sequence", p.Pos(po.Pos()), "the operation is published under the freshly incremented sequence number", "publishOp does not name the published operation by the sequence number it just incremented: peers fetch a sequence number that holds a different (or no) operation")
 	}
